@@ -61,6 +61,10 @@ namespace hv
     using S_DSB = TSD<Str, VB>;
     using S_LB  = TSL<VB, 2>;
     using S_DD  = TSD<Int, TSD<Int, TS<Int>>>;
+    // fixed composites nested in a bundle (child-only ticks of an inner composite while its siblings are still unset)
+    using VQ    = TSB<"VQ", Field<"b", TS<Int>>, Field<"a", TS<Int>>>;
+    using S_BB  = TSB<"BB", Field<"q", VQ>, Field<"l", TS<Int>>>;
+    using S_BL  = TSB<"BL", Field<"g", TSL<TS<Int>, 2>>, Field<"l", TS<Int>>>;
 
     // ---- generic endpoint dump (JSON) ---------------------------------------------------------
     inline void jesc(std::string &o, const std::string &s)
@@ -354,6 +358,24 @@ namespace hv
             if (op.rfind(".x", 0) == 0) { auto c = out.template field<"x">(); apply_op<TS<Int>>(c, op.substr(2), now); }
             else if (op.rfind(".s", 0) == 0) { auto c = out.template field<"s">(); apply_op<TSS<Int>>(c, op.substr(2), now); }
             else throw std::runtime_error("bad TSB op " + op);
+        }
+        else if constexpr (std::is_same_v<Sch, VQ>)
+        {
+            if (op.rfind(".b", 0) == 0) { auto c = out.template field<"b">(); apply_op<TS<Int>>(c, op.substr(2), now); }
+            else if (op.rfind(".a", 0) == 0) { auto c = out.template field<"a">(); apply_op<TS<Int>>(c, op.substr(2), now); }
+            else throw std::runtime_error("bad VQ op " + op);
+        }
+        else if constexpr (std::is_same_v<Sch, S_BB>)
+        {
+            if (op.rfind(".q", 0) == 0) { auto c = out.template field<"q">(); apply_op<VQ>(c, op.substr(2), now); }
+            else if (op.rfind(".l", 0) == 0) { auto c = out.template field<"l">(); apply_op<TS<Int>>(c, op.substr(2), now); }
+            else throw std::runtime_error("bad BB op " + op);
+        }
+        else if constexpr (std::is_same_v<Sch, S_BL>)
+        {
+            if (op.rfind(".g", 0) == 0) { auto c = out.template field<"g">(); apply_op<TSL<TS<Int>, 2>>(c, op.substr(2), now); }
+            else if (op.rfind(".l", 0) == 0) { auto c = out.template field<"l">(); apply_op<TS<Int>>(c, op.substr(2), now); }
+            else throw std::runtime_error("bad BL op " + op);
         }
         else if constexpr (is_tsw<Sch>::value)
         {
